@@ -8,6 +8,8 @@ package main
 import (
 	"context"
 	"errors"
+	"fmt"
+	"os"
 	"sort"
 	"strings"
 	"sync"
@@ -15,9 +17,11 @@ import (
 
 	"github.com/ChainSafe/sygma-relayer/comm"
 	"github.com/ChainSafe/sygma-relayer/comm/elector"
+	"github.com/ChainSafe/sygma-relayer/comm/p2p"
 	"github.com/ChainSafe/sygma-relayer/config/relayer"
 	"github.com/ChainSafe/sygma-relayer/tss"
 	"github.com/ChainSafe/sygma-relayer/tss/message"
+	"github.com/ChainSafe/sygma-relayer/tss/util"
 	"github.com/ChainSafe/sygma-relayer/verifhook"
 	"github.com/libp2p/go-libp2p/core/peer"
 )
@@ -28,14 +32,17 @@ var tidKey = tidKeyT{}
 
 // c9world: relayer under test (self) + the session coordinator's relayer (ghost) + a third relayer (stranger).
 type c9world struct {
-	net      *fakeNet
-	self     *fakeHost
-	ledger   *ledgerComm
-	ghost    *ledgerComm
-	stranger *ledgerComm
-	coord    *tss.Coordinator
-	stats    *sidStats
-	ids      []peer.ID
+	net       *fakeNet
+	self      *fakeHost
+	ledger    *ledgerComm
+	ghost     *ledgerComm
+	stranger  *ledgerComm
+	coord     *tss.Coordinator
+	stats     *sidStats
+	ids       []peer.ID
+	factory   *elector.CoordinatorElectorFactory
+	strangerE p2p.Libp2pCommunication // the third relayer's communication on the election protocol
+	sids      map[string]string
 }
 
 func newC9World() *c9world {
@@ -45,12 +52,39 @@ func newC9World() *c9world {
 	w.self = n.addHost(ids[0], ids)
 	w.ledger = newLedgerComm(w.self)
 	w.ghost = newLedgerComm(n.addHost(ids[1], ids))
-	w.stranger = newLedgerComm(n.addHost(ids[2], ids))
-	w.coord = tss.NewCoordinator(w.self, w.ledger, elector.NewCoordinatorElectorFactory(w.self, relayer.BullyConfig{}))
+	sh := n.addHost(ids[2], ids)
+	w.stranger = newLedgerComm(sh)
+	w.strangerE = p2p.NewCommunication(sh, elector.ProtocolID)
+	// an election waits BullyWaitTime whatever happens; a Select message of another relayer counts only if it is
+	// processed after ElectionWaitTime and before that
+	w.factory = elector.NewCoordinatorElectorFactory(w.self, relayer.BullyConfig{ElectionWaitTime: 3 * time.Millisecond, BullyWaitTime: 200 * time.Millisecond})
+	w.sids = map[string]string{}
+	w.coord = tss.NewCoordinator(w.self, w.ledger, w.factory)
 	w.coord.CoordinatorTimeout = time.Hour
 	w.coord.TssTimeout = time.Hour
 	w.coord.InitiatePeriod = time.Hour
 	return w
+}
+
+// electorComm: the communication the coordinator's bully electors use (their own protocol id, own registries).
+func (w *c9world) electorComm() p2p.Libp2pCommunication {
+	return w.factory.VerifC09Comm().(p2p.Libp2pCommunication)
+}
+
+// sid maps a session name of the wire format to a session id under which the relayers sort as 1 < 2 < 0 (self last):
+// relayer 1 is the static coordinator, and relayer 2 outranks self in a bully election without relayer 1.
+func (w *c9world) sid(name string) string {
+	if s, ok := w.sids[name]; ok {
+		return s
+	}
+	for i := 0; ; i++ {
+		s := name + itoa(i)
+		o := util.SortPeersForSession(w.ids, s)
+		if o[0].ID == w.ids[1] && o[1].ID == w.ids[2] {
+			w.sids[name] = s
+			return s
+		}
+	}
 }
 
 func (w *c9world) proc(sid, role string) *recProc {
@@ -239,152 +273,271 @@ func c9race(a []string) string {
 	return out
 }
 
-// C09.sess <sid:role:nproc:outcome,…>   sessions run one after another on ONE coordinator/communication
+// C09.sess <sid:role:nproc:outcome[>elected:end],…>   sessions run one after another on ONE coordinator/communication
 //
-//	=> per session ret/sub/unsub/close/live/streams/open/runs/stops/pend  joined by ','
+//	role p|c: this relayer participates | coordinates, processes not retryable;  P|C: the same with retryable processes
+//	outcome = how the first attempt ends; for retryable processes the typed failures silent | comm | subset lead to a
+//	second attempt, scripted by  elected (self | other | any) : end (ok | fail | cancel | idle | silent)
+//	=> per session ret/sub/unsub/close/live/streams/open/runs/stops/pend/elive/estreams  joined by ','
 func c9sess(a []string) string {
 	c9installHook()
 	w := newC9World()
 	outs := []string{}
 	for _, it := range items(a[0], ",") {
 		f := strings.Split(it, ":")
-		sid, role, np, oc := f[0], f[1], int(u64(f[2])), f[3]
-		w.coord.CoordinatorTimeout, w.coord.TssTimeout, w.coord.InitiatePeriod = time.Hour, time.Hour, time.Hour
-		switch oc {
-		case "silent", "stranger":
-			w.coord.CoordinatorTimeout = 25 * time.Millisecond
-		case "gto":
-			w.coord.TssTimeout = 25 * time.Millisecond
-			w.coord.InitiatePeriod = 4 * time.Millisecond
-		case "gtorun":
-			w.coord.TssTimeout = 2 * time.Second
+		oc, second := f[3], ""
+		if k := strings.Index(it, ">"); k >= 0 {
+			oc = strings.Split(it[:k], ":")[3]
+			second = it[k+1:]
 		}
-		procs := []*recProc{}
-		tps := []tss.TssProcess{}
-		for i := 0; i < np; i++ {
-			p := w.proc(sid, role)
-			if oc == "readyerr" {
-				p.need = -1
+		r := w.session(f[0], f[1], int(u64(f[2])), oc, second)
+		if r == "hang" {
+			return "hang"
+		}
+		outs = append(outs, r)
+	}
+	return joinOr(outs, ",")
+}
+
+func (w *c9world) session(name, role string, np int, oc, second string) string {
+	sid := w.sid(name)
+	retryable := role == "P" || role == "C"
+	coordRole := role == "c" || role == "C"
+	w.coord.CoordinatorTimeout, w.coord.TssTimeout, w.coord.InitiatePeriod = time.Hour, time.Hour, time.Hour
+	switch oc {
+	case "silent", "stranger":
+		w.coord.CoordinatorTimeout = 25 * time.Millisecond
+	case "gto":
+		w.coord.TssTimeout = 25 * time.Millisecond
+		w.coord.InitiatePeriod = 4 * time.Millisecond
+	case "gtorun":
+		w.coord.TssTimeout = 2 * time.Second
+	}
+	procs := []*recProc{}
+	tps := []tss.TssProcess{}
+	for i := 0; i < np; i++ {
+		p := w.proc(sid, strings.ToLower(role))
+		if retryable {
+			p.retry = true
+			if !coordRole {
+				p.coords = []peer.ID{w.ids[1], w.ids[2], w.ids[0]} // w.sid orders them like this for the session id
 			}
-			procs = append(procs, p)
-			tps = append(tps, p)
 		}
-		s0, u0, c0 := w.ledger.counts(sid)
-		live0 := w.ledger.inner.VerifLiveSubscriptions(sid)
-		ctx, cancel := context.WithCancel(context.Background())
-		ret := make(chan error, 1)
-		returned := make(chan struct{})
-		go func() {
-			err := w.coord.Execute(ctx, tps, make(chan interface{}, 8))
-			ret <- err
-			close(returned)
-		}()
-		isReturned := func() bool {
+		if oc == "readyerr" {
+			p.need = -1
+		}
+		procs = append(procs, p)
+		tps = append(tps, p)
+	}
+	ecomm := w.electorComm()
+	s0, u0, c0 := w.ledger.counts(sid)
+	live0 := w.ledger.inner.VerifLiveSubscriptions(sid)
+	ctx, cancel := context.WithCancel(context.Background())
+	defer cancel()
+	ret := make(chan error, 1)
+	returned := make(chan struct{})
+	go func() {
+		err := w.coord.Execute(ctx, tps, make(chan interface{}, 8))
+		ret <- err
+		close(returned)
+	}()
+	isReturned := func() bool {
+		select {
+		case <-returned:
+			return true
+		default:
+			return false
+		}
+	}
+	waiting := 3
+	if coordRole {
+		waiting = 2
+	}
+	subsNow := func() int { n, _, _ := w.ledger.counts(sid); return n - s0 }
+	// (a session that has already returned — refused, or failed early — is not waited for)
+	subscribed := func() bool { return isReturned() || w.ledger.inner.VerifLiveSubscriptions(sid) >= live0+waiting }
+	// enteredRun drives the session into the k-th Run of every process; kick sends what the wait loop needs
+	enteredRun := func(ready func() bool, kick func()) bool {
+		deadline := time.Now().Add(c9wait)
+		got := 0
+		last := time.Time{}
+		for got < np {
 			select {
-			case <-returned:
+			case <-procs[got].entered:
+				got++
+				continue
+			case <-time.After(300 * time.Microsecond):
+			}
+			if got == 0 && time.Since(last) > 3*time.Millisecond && ready() {
+				kick()
+				last = time.Now()
+			}
+			if isReturned() {
 				return true
-			default:
+			}
+			if time.Now().After(deadline) {
 				return false
 			}
 		}
-		waiting := 3
-		if role == "c" {
-			waiting = 2
+		return true
+	}
+	entered := func() bool {
+		return enteredRun(subscribed, func() { w.kick(sid, strings.ToLower(role)) })
+	}
+	okFlow := true
+	ran1 := 0
+	early := false
+	switch oc {
+	case "ok":
+		okFlow = entered()
+		for _, p := range procs {
+			p.finish <- nil
 		}
-		// (a session that has already returned — refused, or failed early — is not waited for)
-		subscribed := func() bool { return isReturned() || w.ledger.inner.VerifLiveSubscriptions(sid) >= live0+waiting }
-		entered := func() bool {
-			// drive the session into Run for every process
-			deadline := time.Now().Add(c9wait)
-			got := 0
-			last := time.Time{}
-			for got < np {
-				select {
-				case <-procs[got].entered:
-					got++
-					continue
-				case <-time.After(300 * time.Microsecond):
-				}
-				if got == 0 && time.Since(last) > 3*time.Millisecond && subscribed() {
-					w.kick(sid, role)
-					last = time.Now()
-				}
-				if isReturned() {
-					return true
-				}
-				if time.Now().After(deadline) {
-					return false
-				}
+	case "fail":
+		okFlow = entered()
+		procs[0].finish <- errors.New("process failed")
+	case "failhold":
+		// the process fails with an unclassified error while the release of handleError's fail-watch (the second
+		// fail-watch of the session) is delayed: Execute must not return before that subscription is released
+		w.ledger.armHold(2)
+		okFlow = entered()
+		procs[0].finish <- errors.New("process failed")
+		select {
+		case <-w.ledger.holding:
+			select {
+			case <-returned:
+				early = true
+			case <-time.After(150 * time.Millisecond):
 			}
-			return true
+		case <-returned:
+			// (processes that are not retryable have no second fail-watch)
+			w.ledger.mu.Lock()
+			early = retryable && w.ledger.failUnsubs < 2
+			w.ledger.mu.Unlock()
+		case <-time.After(c9wait):
+			okFlow = false
 		}
-		okFlow := true
-		switch oc {
+		close(w.ledger.holdFailUnsub)
+		waitUntil(2*time.Second, func() bool { return isReturned() && w.ledger.inner.VerifLiveSubscriptions(sid) == live0 })
+	case "comm":
+		okFlow = entered()
+		ran1 = np
+		procs[0].finish <- &comm.CommunicationError{Peer: w.ids[2], Err: errors.New("peer does not answer")}
+	case "subset":
+		okFlow = entered()
+		ran1 = np
+		procs[0].finish <- &tss.SubsetError{Peer: w.ids[0]}
+	case "cancelrun":
+		okFlow = entered()
+		cancel()
+	case "gtorun":
+		okFlow = entered()
+	case "failmsg":
+		okFlow = entered()
+		_ = w.ghost.inner.Broadcast(peer.IDSlice{w.ids[0]}, []byte{}, comm.TssFailMsg, sid)
+	case "cancel":
+		okFlow = waitUntil(c9wait, subscribed)
+		cancel()
+	case "badstart":
+		okFlow = waitUntil(c9wait, subscribed)
+		_ = w.ghost.inner.Broadcast(peer.IDSlice{w.ids[0]}, []byte("{not json"), comm.TssStartMsg, sid)
+	case "stranger":
+		okFlow = waitUntil(c9wait, subscribed)
+		b, _ := message.MarshalStartMessage([]byte("go"))
+		_ = w.stranger.inner.Broadcast(peer.IDSlice{w.ids[0]}, b, comm.TssStartMsg, sid)
+		_ = w.stranger.inner.Broadcast(peer.IDSlice{w.ids[0]}, []byte{}, comm.TssInitiateMsg, sid)
+	case "readyerr":
+		okFlow = waitUntil(c9wait, subscribed)
+		w.kick(sid, strings.ToLower(role))
+	case "silent", "gto":
+	}
+	if second != "" && okFlow {
+		sf := strings.Split(second, ":")
+		elected, end := sf[0], sf[1]
+		// subscriptions handed out so far when the second wait loop stands: first attempt, handleError's watch, the loop's own
+		base := waiting + ran1 + 1
+		loop := 2
+		if elected == "self" {
+			loop = 1
+		}
+		if elected != "any" { // a bully election precedes the second attempt
+			okFlow = waitUntil(c9wait, func() bool { return isReturned() || ecomm.VerifLiveSubscriptions(sid) >= 6 })
+			if elected == "other" {
+				_ = w.strangerE.Broadcast(peer.IDSlice{w.ids[0]}, []byte{}, comm.CoordinatorSelectMsg, sid)
+			}
+		}
+		standing := func() bool { return isReturned() || subsNow() >= base+loop }
+		kick2 := func() {
+			from := w.stranger
+			if coordRole || elected == "any" {
+				from = w.ghost
+			}
+			if elected == "self" {
+				_ = from.inner.Broadcast(peer.IDSlice{w.ids[0]}, []byte{}, comm.TssReadyMsg, sid)
+				return
+			}
+			_ = from.inner.Broadcast(peer.IDSlice{w.ids[0]}, []byte{}, comm.TssInitiateMsg, sid)
+			b, _ := message.MarshalStartMessage([]byte("go"))
+			_ = from.inner.Broadcast(peer.IDSlice{w.ids[0]}, b, comm.TssStartMsg, sid)
+		}
+		switch end {
 		case "ok":
-			okFlow = entered()
+			okFlow = okFlow && enteredRun(standing, kick2)
 			for _, p := range procs {
 				p.finish <- nil
 			}
 		case "fail":
-			okFlow = entered()
+			okFlow = okFlow && enteredRun(standing, kick2)
 			procs[0].finish <- errors.New("process failed")
-		case "cancelrun":
-			okFlow = entered()
-			cancel()
-		case "gtorun":
-			okFlow = entered()
-		case "failmsg":
-			okFlow = entered()
-			_ = w.ghost.inner.Broadcast(peer.IDSlice{w.ids[0]}, []byte{}, comm.TssFailMsg, sid)
 		case "cancel":
-			okFlow = waitUntil(c9wait, subscribed)
+			okFlow = okFlow && enteredRun(standing, kick2)
 			cancel()
-		case "badstart":
-			okFlow = waitUntil(c9wait, subscribed)
-			_ = w.ghost.inner.Broadcast(peer.IDSlice{w.ids[0]}, []byte("{not json"), comm.TssStartMsg, sid)
-		case "stranger":
-			okFlow = waitUntil(c9wait, subscribed)
-			b, _ := message.MarshalStartMessage([]byte("go"))
-			_ = w.stranger.inner.Broadcast(peer.IDSlice{w.ids[0]}, b, comm.TssStartMsg, sid)
-			_ = w.stranger.inner.Broadcast(peer.IDSlice{w.ids[0]}, []byte{}, comm.TssInitiateMsg, sid)
-		case "readyerr":
-			okFlow = waitUntil(c9wait, subscribed)
-			w.kick(sid, role)
-		case "silent", "gto":
+		case "idle":
+			okFlow = okFlow && waitUntil(c9wait, standing)
+			cancel()
+		case "silent":
 		}
-		r := "hang"
-		select {
-		case err := <-ret:
-			switch {
-			case err == nil:
-				r = "ok"
-			case isRefusal(err):
-				r = "refused"
-			default:
-				r = "err"
-			}
-		case <-time.After(c9wait):
-		}
-		cancel()
-		if !okFlow || r == "hang" {
-			return "hang"
-		}
-		s1, u1, c1 := w.ledger.counts(sid)
-		runs, stops := []string{}, []string{}
-		for _, p := range procs {
-			rn, sp := p.counts()
-			runs = append(runs, itoa(rn))
-			stops = append(stops, itoa(sp))
-		}
-		pend := "0"
-		if w.coord.VerifPending(sid) {
-			pend = "1"
-		}
-		outs = append(outs, strings.Join([]string{r, itoa(s1 - s0), itoa(u1 - u0), itoa(c1 - c0),
-			itoa(w.ledger.inner.VerifLiveSubscriptions(sid)), itoa(w.ledger.inner.VerifStreamCount(sid)), itoa(w.self.openOut()),
-			strings.Join(runs, "+"), strings.Join(stops, "+"), pend}, "/"))
 	}
-	return joinOr(outs, ",")
+	r := "hang"
+	select {
+	case err := <-ret:
+		switch {
+		case err == nil:
+			r = "ok"
+		case isRefusal(err):
+			r = "refused"
+		default:
+			r = "err"
+		}
+	case <-time.After(c9wait):
+	}
+	if early {
+		r = "early" // Execute returned while a subscription of the session was still registered
+	}
+	cancel()
+	if !okFlow || r == "hang" {
+		if os.Getenv("VERIF_DUMP") != "" {
+			fmt.Fprintf(os.Stderr, "HANG sess %s:%s:%d:%s>%s flow=%v r=%s subs=%d elive=%d\n", name, role, np, oc, second, okFlow, r, subsNow(), ecomm.VerifLiveSubscriptions(sid))
+		}
+		return "hang"
+	}
+	// (the elector's listener releases its subscriptions from its own goroutine once the election context is done)
+	waitUntil(2*time.Second, func() bool { return ecomm.VerifLiveSubscriptions(sid) == 0 && ecomm.VerifStreamCount(sid) == 0 })
+	s1, u1, c1 := w.ledger.counts(sid)
+	runs, stops := []string{}, []string{}
+	for _, p := range procs {
+		rn, sp := p.counts()
+		runs = append(runs, itoa(rn))
+		stops = append(stops, itoa(sp))
+	}
+	pend := "0"
+	if w.coord.VerifPending(sid) {
+		pend = "1"
+	}
+	return strings.Join([]string{r, itoa(s1 - s0), itoa(u1 - u0), itoa(c1 - c0),
+		itoa(w.ledger.inner.VerifLiveSubscriptions(sid)), itoa(w.ledger.inner.VerifStreamCount(sid)), itoa(w.self.openOut()),
+		strings.Join(runs, "+"), strings.Join(stops, "+"), pend,
+		itoa(ecomm.VerifLiveSubscriptions(sid)), itoa(ecomm.VerifStreamCount(sid))}, "/")
 }
 
 // C09.stress <n>   n goroutines call Execute for ONE session id at the same time, with no schedule control (the
@@ -446,6 +599,16 @@ func init() {
 
 var c9outsP = []string{"ok", "fail", "silent", "gto", "cancel", "cancelrun", "badstart", "stranger", "failmsg"}
 var c9outsC = []string{"ok", "fail", "gto", "cancel", "cancelrun", "readyerr"}
+
+// first-attempt failure > who coordinates the second attempt : how it ends
+var c9retryP = []string{
+	"silent>self:ok", "silent>self:fail", "silent>self:cancel", "silent>self:idle",
+	"silent>other:ok", "silent>other:fail", "silent>other:cancel", "silent>other:idle", "silent>other:silent",
+	"comm>self:ok", "comm>self:fail", "comm>self:cancel", "comm>self:idle",
+	"comm>other:ok", "comm>other:fail", "comm>other:idle",
+	"subset>any:ok", "subset>any:fail", "subset>any:cancel", "subset>any:idle",
+}
+var c9retryC = []string{"comm>self:ok", "comm>self:fail", "comm>self:cancel", "comm>self:idle"}
 
 func genC09(g *G) {
 	// retried process objects (real signing processes; FROST needs 10 s per run: thorough tier, started ahead)
@@ -525,9 +688,6 @@ func genC09(g *G) {
 	// sessions: every outcome × role × 1..3 processes, each followed by a re-use of the same id
 	for _, np := range []string{"1", "2", "3"} {
 		for _, oc := range c9outsP {
-			if oc == "gtorun" {
-				continue
-			}
 			g.Emit("sess", "a:p:"+np+":"+oc+",a:p:1:ok")
 		}
 		for _, oc := range c9outsC {
@@ -538,12 +698,27 @@ func genC09(g *G) {
 	if g.Thorough() {
 		g.Emit("sess", "a:c:2:gtorun,a:p:1:ok")
 	}
+	// retryable processes: unclassified failures (handleError returns at once) and every scripted second attempt
+	for _, np := range []string{"1", "2"} {
+		for _, oc := range []string{"ok", "fail", "failhold", "failmsg", "gto", "cancel", "cancelrun", "badstart"} {
+			g.Emit("sess", "a:P:"+np+":"+oc+",a:P:1:ok")
+		}
+		for i, it := range c9retryP {
+			if np == "2" && !g.Thorough() && i%3 != 0 {
+				continue
+			}
+			g.Emit("sess", "a:P:"+np+":"+it+",a:p:1:ok")
+		}
+		for _, it := range c9retryC {
+			g.Emit("sess", "a:C:"+np+":"+it+",a:P:1:silent>self:ok")
+		}
+	}
 	if g.Thorough() {
 		g.Emit("rerun", "fsigning", "2")
 		g.Emit("rerun", "esigning", "5")
 	}
-	// random sequences of sessions over two ids in any order
-	for i := 0; i < g.Count(40, 1500); i++ {
+	// random sequences of sessions over two ids in any order, retried sessions mixed in
+	for i := 0; i < g.Count(40, 700); i++ {
 		n := 2 + g.Intn(5)
 		xs := []string{}
 		for j := 0; j < n; j++ {
@@ -551,6 +726,13 @@ func genC09(g *G) {
 			oc := g.Pick(c9outsP)
 			if role == "c" {
 				oc = g.Pick(c9outsC)
+			}
+			if g.Intn(4) == 0 {
+				if role == "p" {
+					role, oc = "P", g.Pick(c9retryP)
+				} else {
+					role, oc = "C", g.Pick(c9retryC)
+				}
 			}
 			xs = append(xs, []string{"a", "b"}[g.Intn(2)]+":"+role+":"+itoa(1+g.Intn(3))+":"+oc)
 		}
